@@ -115,20 +115,9 @@ func (d *DifferV1) handleInsert(change *object.Change) (*FileChange, error) {
 
 // GetLineChanges gets line-level change information for a file, focusing only on incremental code
 func (d *DifferV1) getLineChanges(filepath string) ([]LineChange, error) {
-	// Get file content
-	file, err := d.repoInfo.getNewCommit().File(filepath)
+	lines, blame, err := d.readBlame(filepath)
 	if err != nil {
-		return nil, fmt.Errorf("failed to get file: %w", err)
-	}
-	// Get file content
-	lines, err := file.Lines()
-	if err != nil {
-		return nil, fmt.Errorf("failed to read file content: %w", err)
-	}
-	// Get blame information for the file
-	blame, err := git.Blame(d.repoInfo.getNewCommit(), filepath)
-	if err != nil {
-		return nil, fmt.Errorf("failed to get blame information: %w", err)
+		return nil, err
 	}
 	// Use blame information to identify incremental code
 	var changes []LineChange
@@ -165,6 +154,29 @@ func (d *DifferV1) getLineChanges(filepath string) ([]LineChange, error) {
 		changes = append(changes, *currentChange)
 	}
 	return changes, nil
+}
+
+// readBlame reads the lines of the file in the new commit and their blame information.
+// All git object access of the workers goes through here and is serialized (see repoInfo.objMu).
+func (d *DifferV1) readBlame(filepath string) ([]string, *git.BlameResult, error) {
+	d.repoInfo.objMu.Lock()
+	defer d.repoInfo.objMu.Unlock()
+	// Get file content
+	file, err := d.repoInfo.getNewCommit().File(filepath)
+	if err != nil {
+		return nil, nil, fmt.Errorf("failed to get file: %w", err)
+	}
+	// Get file content
+	lines, err := file.Lines()
+	if err != nil {
+		return nil, nil, fmt.Errorf("failed to read file content: %w", err)
+	}
+	// Get blame information for the file
+	blame, err := git.Blame(d.repoInfo.getNewCommit(), filepath)
+	if err != nil {
+		return nil, nil, fmt.Errorf("failed to get blame information: %w", err)
+	}
+	return lines, blame, nil
 }
 
 // isCommitAfterStable checks if the given commit is after the old branch commit
